@@ -58,6 +58,7 @@ impl Worker {
                     ahead: 0,
                     ncmd: 0,
                     nhd: 0,
+                    marks: vec![],
                 }
             }
             Err(RecvTimeoutError::Disconnected) => {
@@ -77,6 +78,7 @@ impl Worker {
                     ahead: 0,
                     ncmd: 0,
                     nhd: 0,
+                    marks: vec![],
                 }
             }
         }
